@@ -541,8 +541,23 @@ func oneRun(c *core.Ctx, r *core.Result, idx int, rng *rand.Rand) {
 			fs := wire[k].Fields
 			pd, _ := fs.Get(43)
 			if pd != "Y" {
-				fail("first-time-frame-inside-replay", "while ResendRequest %d..%d was being answered (coverage at %d), first-time frame %d (35=%s) was transmitted between the replayed ones", rr.b, rr.e, cur, wire[k].Seq, first(fs.Get(35)))
-				return
+				// a first-time frame: it is inside the replay only if the same replay continues after it
+				// (the next PossDup frame carries exactly the number the coverage stopped at)
+				continues := false
+				for j := k + 1; j < len(wire); j++ {
+					if p2, _ := wire[j].Fields.Get(43); p2 == "Y" {
+						continues = wire[j].Seq == cur
+						break
+					}
+				}
+				if continues {
+					fail("first-time-frame-inside-replay", "while ResendRequest %d..%d was being answered (coverage at %d), first-time frame %d (35=%s) was transmitted between the replayed ones", rr.b, rr.e, cur, wire[k].Seq, first(fs.Get(35)))
+					return
+				}
+				break // the run of replayed frames ended here (request not or only partly honoured: C03 judges replies)
+			}
+			if wire[k].Seq != cur {
+				break // a PossDup frame of another replay
 			}
 			if t, _ := fs.Get(35); t == "4" {
 				if ns, ok := fs.Int(36); ok && ns > cur {
